@@ -1991,8 +1991,11 @@ fn c12_rec(ops: &mut Vec<DiffOp>, oi: usize, nj: usize, left: usize, cases: &mut
 }
 
 fn c12(cases: &mut u64) -> Option<String> {
-    if let Some(w) = c12_rec(&mut Vec::new(), 0, 0, 8, cases) {
-        return Some(w);
+    // op lists starting at (0,0) and at unequal non-zero range starts (as sub-range diffs produce them)
+    for (oi, nj, depth) in [(0usize, 0usize, 8usize), (3, 1, 6), (1, 4, 6)] {
+        if let Some(w) = c12_rec(&mut Vec::new(), oi, nj, depth, cases) {
+            return Some(w);
+        }
     }
     c12_forwards(cases)
 }
@@ -2664,7 +2667,7 @@ fn main() {
         "C09" => (c09(&mut cases), "alphabet {0,1,2}, len 0..=6, deadline none/expired; TextDiff line diffs of 101..260 lines"),
         "C10" => (c10(&mut cases), "alphabet {0,1}, len 0..=3, all valid scripts x all carried indices x 3 adapter stacks"),
         "C11" => (c11(&mut cases), "alphabet {0,1,2}, len 0..=5, slices + embedded sub-ranges; raw callback streams (all algorithms without deadline, LCS with an expired deadline) + captured ops"),
-        "C12" => (c12(&mut cases), "alternating exact op lists up to 8 ops, equal lens {1,2,3,5,8}, 6 change shapes, n 0..=3; TextDiff::grouped_ops / Capture::into_grouped_ops == group_diff_ops on char diffs (alphabet {0,1,2}, len 0..=4, n 0..=2) and on 2^23 equal lines + 1 inserted line"),
+        "C12" => (c12(&mut cases), "alternating exact op lists up to 8 ops from (0,0) and up to 6 ops from the range starts (3,1) and (1,4), equal lens {1,2,3,5,8}, 6 change shapes, n 0..=3; TextDiff::grouped_ops / Capture::into_grouped_ops == group_diff_ops on char diffs (alphabet {0,1,2}, len 0..=4, n 0..=2) and on 2^23 equal lines + 1 inserted line"),
         "C13" => (c13(&mut cases), "synthetic ops + captured ops for alphabet {0,1,2} len 0..=5 + TextDiff chars"),
         "C05" => (c05(&mut cases), "lines {a,b,c}, 0..=4 lines, optional missing final newline, radius 0..=2, deadline none / expired; 21 line diffs of 101..260 lines"),
         "C04" | "C17" => (c04(&mut cases), "texts over {a,b,space,newline} len 0..=4 and non-ASCII texts over {a, U+00E9, space, U+3000} len 0..=3, lines/words/chars, iter_all_changes (deadline none / expired) + remapper + utils helpers; 15 line diffs of 101..260 lines, one of 70000 distinct lines, one of 65000 lines with 600 rewritten (reconstruction through the integer-mapping path)"),
